@@ -33,6 +33,13 @@ def programs(tier):
                     # consecutive filters (squashing) and a second consumer of the filtered frame
                     progs.append(Program(f"(lambda Z: Z[Z.{mid.names[0]} != 0])({text})", [srcL], ordered=False, family="F03", note=f"{'/'.join(mid.ops)}/pred-{tag}/squash"))
                     progs.append(Program(f"(lambda Z: Z[Z.{mid.names[0]} != 0])({text})", [srcLd], ordered=False, family="F03", note=f"{'/'.join(mid.ops)}/pred-{tag}/squash-dupindex"))
+        # frame-valued predicates: Y[Y > c] masks cells, it does not select rows, and must not be moved like a row filter
+        for mid in [m for m in crossable if m is not None] + [_n(L, "L.set_index('a', divisions=[-10, 0, 10])", "set_index-only", cols=(("b", "f"), ("c", "i")), ordered=False)]:
+            for ptag, p in (("gt", "Y > 0"), ("ne", "Y != 1"), ("and", "(Y > 0) & (Y < 2)")):
+                progs.append(Program(f"(lambda Y: Y[{p}])({mid.text})", [srcL], ordered=False, family="F03", note=f"{'/'.join(mid.ops)}/mask-{ptag}"))
+            progs.append(Program(f"(lambda Z: Z[Z > -1])((lambda Y: Y[Y > 0])({mid.text}))", [srcL], ordered=False, family="F03", note=f"{'/'.join(mid.ops)}/mask-squash"))
+        for how in ("inner", "left"):
+            progs.append(Program(f"(lambda M: M[M > 0])(L.merge(R, on='a', how={how!r}))", [srcL, srcR], ordered=False, family="F03", note=f"merge-{how}/mask"))
         # predicates that are not row-wise (cumulative / shifted values of the filtered frame) must not be squashed or moved
         for inner in ("Y[Y.a > 0]", "Y[Y.b.isna()]"):
             for outer in ("Z[Z.c.cumsum() > 2]", "Z[Z.a.shift(1) > 0]", "Z[Z.c > Z.c.sum() - 3]", "Z[Z.c.cummax() > Z.a]"):
